@@ -146,7 +146,7 @@ struct Stats {
   }
 };
 
-inline Stats &stats() { static Stats s; return s; }
+inline Stats &stats() { static Stats *s = new Stats; return *s; }   // never destroyed: flushed from atexit / death callbacks
 
 // ---- exclusion of known-finding classes ------------------------------------------
 inline bool excluded(const std::string &klass) {
@@ -299,4 +299,15 @@ inline int harness_main(int argc, char **argv, std::function<int()> run_generate
   return bad ? 1 : 0;
 }
 
+
+// ---- libFuzzer glue (targets built with -DVERIF_FUZZ) ---------------------------------------------
+// Every iteration records the decoded case (text replay format); an oracle failure writes the text case,
+// flushes the per-process stats and traps, so the driver can replay it through the ordinary harness.
+inline void fuzz_init() { install_crash_capture(); atexit([] { stats().flush(); }); }
+inline void fuzz_report(const std::string &sub, const std::string &text, const std::string &verdict, const std::string &klass) {
+  report_failure(sub, text, verdict, klass);
+  stats().flush();
+  fprintf(stderr, "FUZZ-ORACLE-FAILURE %s\n", verdict.c_str());
+  __builtin_trap();
+}
 } // namespace vl
